@@ -40,6 +40,7 @@ def check(repo: Repo, rep: Report) -> None:
     for key in KEYS:
         name = key.split("::")[1].split(".")[0]
         TC.check_operator(repo, rep, "K1-signature", key, lambda k, slot, n=name: WHY[n])
+    TC.rule_scheduler_forwarded(rep, "F0-scheduler-forwarded", repo.fn("reactivex/operators/_zip.py", "zip_with_iterable_.subscribe"))
     # zip -- role: the per-source buffers are the local that element handlers append their element to (`Q[i].append(x)`)
     z = repo.fn("reactivex/observable/zip.py", "zip_.subscribe")
     queues = set()
